@@ -1,7 +1,7 @@
 """Sign agreement of Distance::side and Distance::pq_distance (A7), margin forwarding, random split <=> zero normal."""
 import absint
 import paths
-from facts import strip, show, walk, short
+from facts import strip, show, walk, short, const_eval
 from rules import root, sp
 
 
@@ -162,5 +162,14 @@ def r_random_zero(ctx, rule='R-RANDOM-ZERO'):
     rf = F.one('unaligned_vector::UnalignedVector::<Codec>::reset')
     if ctx.need(rf is not None, rule, 'UnalignedVector::reset'):
         fills = [c for c in rf.calls() if c.callee.endswith(('::fill', 'vec::from_elem'))]
-        good = len(fills) >= 2 and all(strip(c.arg_term(1 if c.callee.endswith('::fill') else 0))[0] == 'const' and strip(c.arg_term(1 if c.callee.endswith('::fill') else 0))[2] == 0 for c in fills)
-        ctx.check(good, rule, 'reset-zeroes', rf.loc(), 'reset fills the vector bytes with 0 (both Cow arms)', 'UnalignedVector::reset no longer zeroes the vector')
+
+        def zero_arg(c):
+            return const_eval(c.arg_term(1 if c.callee.endswith('::fill') else 0)) == 0
+
+        def on_param(c):
+            # fill() works on the parameter's own bytes (directly or through Cow::to_mut); from_elem builds its replacement
+            return c.callee.endswith('vec::from_elem') or root(c.arg_term(0))[0] == 'arg' or \
+                any(x[0] == 'call' and x[1].endswith('Cow::<\'_, B>::to_mut') and root(x[2][0])[0] == 'arg' for x in walk(c.arg_term(0)))
+        rets = [b for b, k, t in paths.ret_assigns(rf)]
+        good = bool(fills) and all(zero_arg(c) and on_param(c) for c in fills) and paths.must_pass(rf, 0, rets, [c.bb for c in fills])
+        ctx.check(good, rule, 'reset-zeroes', rf.loc(), 'every path of reset fills the vector bytes with 0 (%d zeroing sites)' % len(fills), 'UnalignedVector::reset no longer zeroes the vector')
